@@ -95,6 +95,29 @@ fn poly_case<const K: usize>(case: &Case, l: &mut Local) {
         let diff = (0..K).map(|i| (fit.c[i] - f3.c[i]).abs()).fold(0.0, f64::max);
         l.check("uniformly scaling the weights changes nothing", "", diff <= tol, mk, || format!("difference {:e}", diff));
     }
+    // the weighted optimum does not depend on the unit of the weights (inverse variances of 1e-12, counts of 1e9)
+    if let Some(w) = ws.as_ref() {
+        for unit in [1e-12, 1e9] {
+            let scaled: Vec<f64> = w.iter().map(|x| x * unit).collect();
+            match guarded(|| Polynomial::<K>::least_squares(xs, &ys, Some(&scaled[..]))) {
+                Ok(fu) => {
+                    let diff = (0..K).map(|i| (fit.c[i] - fu.c[i]).abs()).fold(0.0, f64::max);
+                    l.check("uniformly scaling the weights changes nothing", "unit", diff <= tol, mk, || format!("weights times {:e}: difference {:e}", unit, diff));
+                }
+                Err(e) => {
+                    l.check("polynomial fit returns", "panic", false, mk, || format!("weights times {:e}: {}", unit, e));
+                }
+            }
+        }
+        // weights of very different sizes: every sample still counts (the fit of exact samples is that polynomial)
+        let mixed: Vec<f64> = w.iter().enumerate().map(|(i, x)| if i % 2 == 0 { x * 1e-11 } else { x * 1e-9 }).collect();
+        if let Ok(fm) = guarded(|| Polynomial::<K>::least_squares(xs, &ys, Some(&mixed[..]))) {
+            let errm = (0..K).map(|i| (fm.c[i] - cs[i]).abs()).fold(0.0, f64::max);
+            if take > K {
+                l.check("exact samples of a polynomial are fitted by that polynomial", "mixed small weights", errm <= tol * 1e3, mk, || format!("weights {:?}: {:?} against {:?}", mixed, fm.c, cs));
+            }
+        }
+    }
     if case.c == 1 {
         let f0 = Polynomial::<K>::least_squares(xs, &ys, None);
         let diff = (0..K).map(|i| (fit.c[i] - f0.c[i]).abs()).fold(0.0, f64::max);
@@ -408,6 +431,26 @@ fn ransac_case(case: &Case, l: &mut Local) {
         }
         other => {
             l.check("RANSAC returns a circle", "", false, mk, || format!("{:?}", other.map(|r| r.map(|c| c.r()))));
+        }
+    }
+    // the exactly determined case, and orders in which only a triple containing the last point can succeed
+    {
+        let (a, b, c) = (pts[0], pts[nin / 3], pts[2 * nin / 3]);
+        for (what, set) in [("three points", vec![a, b, c]), ("repeated leading point", vec![a, a, a, b, c]), ("collinear leading points", vec![a, Point2::new(0.5 * (a.x + b.x), 0.5 * (a.y + b.y)), b, Point2::new(1.5 * b.x - 0.5 * a.x, 1.5 * b.y - 0.5 * a.y), c])] {
+            l.eval();
+            l.bucket("RANSAC on a minimal or badly ordered set");
+            match guarded(|| Circle2::ransac(&set, tol, Some(500), None, None).map_err(|e| e.to_string())) {
+                Ok(Ok(found)) => {
+                    // (with collinear leading points several triples containing the last point define a circle
+                    // through three of the five; with three distinct points there is exactly one)
+                    let support = set.iter().filter(|p| found.distance_to(p).abs() < tol).count();
+                    let on = if what == "collinear leading points" { support >= 3 } else { [a, b, c].iter().all(|p| found.distance_to(p).abs() < tol) };
+                    l.check("RANSAC finds a supported circle when every circle-defining triple contains the last point", "", on, mk, || format!("{}: centre {:?} r {} against centre ({}, {}) r {}", what, found.center, found.r(), cx, cy, r));
+                }
+                other => {
+                    l.check("RANSAC finds a supported circle when every circle-defining triple contains the last point", "none", false, mk, || format!("{}: {:?}", what, other.map(|r| r.map(|c| c.r()))));
+                }
+            }
         }
     }
     // with radius limits that admit the generating circle, over several orders of the same points (the seeded
